@@ -42,6 +42,9 @@ def correspond(pid, fam, cases, workdir, profiles=("debug", "release")):
         impl[prof] = harness_run(prof, fam.NAME, casefile, os.path.join(workdir, f"{fam.NAME}.{prof}.out"))
         if len(impl[prof]) != len(cases):
             raise RuntimeError(f"harness returned {len(impl[prof])} observations for {len(cases)} cases")
+    if getattr(fam, "NO_MODEL", False):
+        # implementation-side predicate only (stated as such in the family and in DESIGN.md)
+        return impl, [[] for _ in cases]
     if hasattr(fam, "coq_term_with_obs"):
         terms = [fam.coq_term_with_obs(c, impl[profiles[0]][i]) for i, c in enumerate(cases)]
     else:
@@ -141,7 +144,7 @@ def run_property(pid, tier, seed, replay=None):
 
     # 2. prove: build the closure of props/<pid>.v and the run models of the families
     props_v = f"theories/props/{pid}.v"
-    run_targets = [f"theories/run/{f.RUNFILE}.vo" for f in fams]
+    run_targets = [f"theories/run/{f.RUNFILE}.vo" for f in fams if hasattr(f, "RUNFILE")]
     closure = coq_closure(props_v)
     with Lock("coq"):
         ok, log = coq_make([props_v + "o"], timeout=2400)
@@ -157,7 +160,7 @@ def run_property(pid, tier, seed, replay=None):
         proof["broken"].append({"kind": "model", "theorem": broken_theorem_name(err) or "run-model", **err})
 
     # 3. gates
-    hits = gates(closure + [f"theories/run/{f.RUNFILE}.v" for f in fams])
+    hits = gates(closure + [f"theories/run/{f.RUNFILE}.v" for f in fams if hasattr(f, "RUNFILE")])
     if hits:
         proof["ok"] = False
         proof["broken"].append({"kind": "gate", "theorem": "forbidden-construct", "error": "; ".join(hits[:10])})
